@@ -15,7 +15,7 @@ import decimal
 
 import numpy as np
 
-from .. import rngctl
+from .. import core, rngctl
 
 LEVEL = "exploration"
 D = decimal.Decimal
@@ -72,6 +72,7 @@ def run(ctx):
         for N in [0, 1, 2, 100_000]:
             cfg = NssConfig()
             cfg.simulation.spectrum = Simulation.MonoSpectrum(log_nu_energy=loge)
+            cfg = core.validated(cfg, "C12 mono configuration")
             cur.clear()
             cur["kind"] = "mono"
             ctx.count("mono")
@@ -102,6 +103,7 @@ def run(ctx):
     for ci, (p, lo, hi) in enumerate(cases):
         cfg = NssConfig()
         cfg.simulation.spectrum = Simulation.PowerSpectrum(index=p, lower_bound=lo, upper_bound=hi)
+        cfg = core.validated(cfg, "C12 power-law configuration")
         grid = np.sort(np.minimum(np.concatenate([hostile, rng.uniform(0, 1, 12), np.linspace(0, 1, 9)]), 1 - 2.0**-53))
         ill = 0 < abs(1 - p) < 1e-3
         for mode in ("stub", "spy"):
